@@ -60,10 +60,38 @@ def check_sites(ctx):
     return lemmas
 
 
+LEMMA_MODULES = ['Proofs.BufferProofs', 'Proofs.MbapProofs', 'Proofs.RtuProofs', 'Proofs.C05Proofs', 'Proofs.ClientReplyProofs',
+                 'Proofs.ClientCodecProofs', 'Proofs.ServerTheorems', 'Proofs.C11Proofs']
+
+
+def check_lemmas_exist(ctx, lemmas):
+    """every lemma the coverage map names must exist in the compiled development (Check name.)"""
+    import os
+    d = os.path.join(vlib.CACHE, 'eval')
+    os.makedirs(d, exist_ok=True)
+    path = os.path.join(d, f'c07_lemmas_{os.getpid()}.v')
+    with open(path, 'w') as f:
+        f.write('From Rodbus Require ' + ' '.join(LEMMA_MODULES) + '.\n')
+        for m in LEMMA_MODULES:
+            f.write(f'Import {m}.\n')
+        for l in lemmas:
+            f.write(f'Check {l}.\n')
+    rc, out = vlib.sh(['coqc', '-noglob', '-Q', os.path.join(vlib.COQ, 'theories'), 'Rodbus', path], cwd=d, timeout=600)
+    ctx.oblige('panic-site-lemmas-exist', rc == 0, out[-300:])
+    if rc != 0:
+        ctx.proof_broken.append('a lemma named in translator/panic_sites.json no longer exists: ' + out[-200:])
+    for ext in ('.v', '.vo', '.vok', '.vos'):
+        try:
+            os.remove(path[:-2] + ext)
+        except OSError:
+            pass
+
+
 def run(ctx):
     ctx.translate([])
     lemmas = check_sites(ctx)
-    ctx.prove()
+    if ctx.prove():
+        check_lemmas_exist(ctx, lemmas)
     if ctx.tier == 'thorough':
         ctx.coqchk()
     if not ctx.build_harness():
@@ -71,7 +99,7 @@ def run(ctx):
     if ctx.replay and 'cases' in ctx.replay:
         cases = ctx.replay['cases']
     else:
-        cases = gen_cases(ctx, 3000 if ctx.quick() else 40000)
+        cases = gen_cases(ctx, 12000 if ctx.quick() else 150000)
     out = ctx.harness('fuzz', cases, shards=vlib.NPROC, timeout=1500)
     classes = {}
     bad = 0
